@@ -442,3 +442,74 @@ func onCycle(b *ssa.BasicBlock) bool {
 	}
 	return false
 }
+
+// ---------------------------------------------------------------------------
+// R-STEPDECODE: a cursor moves by the width of the rune decoded AT the cursor.
+//   _, size := utf8.DecodeRuneInString(s[i:]);      i += size
+//   _, size := utf8.DecodeLastRuneInString(s[:i]);  i -= size
+// Stepping i by the width of a rune decoded at some other position (a loop-
+// invariant index, the neighbouring variable) lands inside a multi-byte rune
+// or on the wrong rune whenever widths differ.
+// ---------------------------------------------------------------------------
+
+func RStepDecode(c *core.Ctx) {
+	c.Rule("R-STEPDECODE", "wherever a byte cursor is advanced (or moved back) by the size result of utf8.DecodeRune* (DecodeLastRune*) applied to a slice expression, the slice starts (ends) at that very cursor: i += size goes with s[i:], i -= size with s[:i]", 2)
+	p := c.P
+	n := 0
+	for _, fn := range p.ModuleFuncs() {
+		name := core.SSAName(fn)
+		cnt := 0
+		for _, b := range fn.Blocks {
+			for _, ins := range b.Instrs {
+				bin, ok := ins.(*ssa.BinOp)
+				if !ok || (bin.Op != token.ADD && bin.Op != token.SUB) {
+					continue
+				}
+				for _, pair := range [][2]ssa.Value{{bin.X, bin.Y}, {bin.Y, bin.X}} {
+					cur, w := pair[0], pair[1]
+					if bin.Op == token.SUB && w != bin.Y {
+						continue
+					}
+					ex, ok := w.(*ssa.Extract)
+					if !ok || ex.Index != 1 {
+						continue
+					}
+					call, ok := ex.Tuple.(*ssa.Call)
+					if !ok {
+						continue
+					}
+					cal := call.Call.StaticCallee()
+					if cal == nil || cal.Pkg == nil || cal.Pkg.Pkg.Path() != "unicode/utf8" || !strings.HasPrefix(cal.Name(), "Decode") {
+						continue
+					}
+					sl, ok := call.Call.Args[0].(*ssa.Slice)
+					if !ok {
+						continue
+					}
+					last := strings.HasPrefix(cal.Name(), "DecodeLast")
+					cnt++
+					n++
+					c.Visit(name)
+					var at ssa.Value
+					want := "s[i:]"
+					if last {
+						at, want = sl.High, "s[:i]"
+					} else {
+						at = sl.Low
+					}
+					okPos := at != nil && (at == cur || core.SameValue(at, cur))
+					okOp := (last && bin.Op == token.SUB) || (!last && bin.Op == token.ADD)
+					atS := "<whole>"
+					if at != nil {
+						atS = at.Name()
+					}
+					c.Check(okPos && okOp, fmt.Sprintf("%s / cursor step #%d uses the width of the rune at the cursor", name, cnt), bin.Pos(),
+						"%s %s size, but size comes from %s on a slice bounded by %s, not by the cursor itself (expected %s): the step is the width of a different rune", cur.Name(), bin.Op, cal.Name(), atS, want)
+				}
+			}
+		}
+	}
+	if n == 0 {
+		c.Anchor("cursor steps by a decoded rune width")
+	}
+}
